@@ -258,16 +258,17 @@ MolsC(s, c, E) ==
       CC == CompsFrom(RS, A, {})
   IN F({F({i \in Idx(s) : c.rid[i] \in cc}) : cc \in CC})
 
-FastOutC(s, c) ==
+\* cand = CandPairs(s), computed once by the caller
+FastOutC(s, c, cand) ==
   LET O  == OldE(s, SPEC)
       N  == NameEdgesC(s, c)
       B0 == F(O \cup N)
-      D  == IF s.dist THEN F({p \in CandPairs(s) : RuleC(s, c, p, TRUE, B0)}) ELSE {}
+      D  == IF s.dist THEN F({p \in cand : RuleC(s, c, p, TRUE, B0)}) ELSE {}
       E  == F(B0 \cup D)
   IN [mols |-> MolsC(s, c, E), edges |-> E, dist |-> WithD2(s, N \cup D), named |-> N, guessed |-> D]
-FastOut(s) == LET o == FastOutC(s, Ctx(s)) IN [mols |-> o.mols, edges |-> o.edges, dist |-> o.dist]
+FastOut(s) == LET o == FastOutC(s, Ctx(s), CandPairs(s)) IN [mols |-> o.mols, edges |-> o.edges, dist |-> o.dist]
 \* "numerically on a threshold", for large systems
-AnyNearC(s) == \E p \in CandPairs(s) : Near(s, p[1], p[2])
+AnyNearC(s, cand) == \E p \in cand : Near(s, p[1], p[2])
 
 (* ------------------------------------------------------------- well-formedness *)
 \* large systems: coordinates up to 100 nm (differences stay far below 2^31; squares are only taken of close pairs)
